@@ -107,6 +107,18 @@ impl GenCfg {
             ast_mutation_pct: 6,
         }
     }
+    /// thorough tier: one case in five leaves the usual bounds (nesting to depth 6, up to 12
+    /// stanzas, up to 8 statements per block); returns whether it did
+    pub fn deepen(&mut self, rng: &mut Rng) -> bool {
+        if rng.chance(1, 5) {
+            self.max_depth = 6;
+            self.max_stanzas = 12;
+            self.max_stmts = 8;
+            true
+        } else {
+            false
+        }
+    }
     pub fn order_insensitive() -> GenCfg {
         GenCfg {
             scoped_mut: false,
@@ -447,8 +459,22 @@ impl<'r> Gen<'r> {
                         for i in 0..n {
                             fmt.push_str(*self.rng.pick(&["", "a", "{{", "}}", " : ", "é"]));
                             fmt.push_str("{}");
-                            let t = self.renderable_ty();
-                            args.push(self.expr(&t, ctx, depth + 1, need_local));
+                            if self.rng.chance(1, 8) {
+                                // a set whose rendering does not depend on element order: empty,
+                                // one element, or one literal written twice
+                                let et = match self.rng.below(4) {
+                                    0 => Ty::Int,
+                                    1 => Ty::Bool,
+                                    _ => Ty::Str,
+                                };
+                                let e = self.literal(&et, depth + 1);
+                                let k = self.rng.below(3);
+                                self.feature("format_of_small_set");
+                                args.push(GExpr::Set(vec![e; k]));
+                            } else {
+                                let t = self.renderable_ty();
+                                args.push(self.expr(&t, ctx, depth + 1, need_local));
+                            }
                             let _ = i;
                         }
                         fmt.push_str(*self.rng.pick(&["", "!", "{{}}", "}}"]));
